@@ -4,6 +4,7 @@ import (
 	"fmt"
 	"go/token"
 	"strings"
+	"verifcheck/internal/core"
 
 	"golang.org/x/tools/go/ssa"
 
@@ -12,8 +13,8 @@ import (
 
 func init() {
 	Register(&Spec{
-		ID: "C14",
-		Explanation: "Decides structural necessary conditions of bounded, exactly framed decoding: (R1) every allocation in Decoder.Decode, Unmarshal and demuxArena whose size derives from header bytes is dominated, on the continuing edge, by the comparison of that size against the configured limit (MaxMessageSize, maxStreamSegments, the input length, maxInt), and demuxArena's slicing is preceded at both call sites by the test that the data covers the header's total; (R2) streamHeader.totalSize adds overflow-checked segment sizes, Decode rejects MaxMessageSize < 8, too many segments before reading the rest of the header, a header larger than the limit and a total larger than the limit minus the header; (R3) io.EOF is returned only for the read of the first header word, every other read error is wrapped; (R4) with buffer reuse the arena slices handed out are capped (three-index slices) so appends cannot scribble on the shared buffer. Does NOT decide that decoded messages equal the encoded ones nor exact allocation totals.",
+		ID:           "C14",
+		Explanation:  "Decides structural necessary conditions of bounded, exactly framed decoding: (R1) every allocation in Decoder.Decode, Unmarshal and demuxArena whose size derives from header bytes is dominated, on the continuing edge, by the comparison of that size against the configured limit (MaxMessageSize, maxStreamSegments, the input length, maxInt), and demuxArena's slicing is preceded at both call sites by the test that the data covers the header's total; (R2) streamHeader.totalSize adds overflow-checked segment sizes, Decode rejects MaxMessageSize < 8, too many segments before reading the rest of the header, a header larger than the limit and a total larger than the limit minus the header; (R3) io.EOF is returned only for the read of the first header word, every other read error is wrapped; (R4) with buffer reuse the arena slices handed out are capped (three-index slices) so appends cannot scribble on the shared buffer. Does NOT decide that decoded messages equal the encoded ones nor exact allocation totals.",
 		ExtraConfigs: true,
 		Run:          runC14,
 	})
@@ -21,13 +22,13 @@ func init() {
 
 var decodeSpecs = []anchorSpec{
 	{"capnp.(*Decoder).Decode", "capnp.resizeSlice", 1, []string{"p0.hdrbuf", "int(streamHeaderSize(SegmentID(Uint32(*LittleEndian, p0.wordbuf[:]))))"},
-		[]string{"SegmentID(Uint32(*LittleEndian, p0.wordbuf[:])) <= 512:SegmentID", "streamHeaderSize(SegmentID(Uint32(*LittleEndian, p0.wordbuf[:]))) <= phi"},
+		[]string{"SegmentID(Uint32(*LittleEndian, p0.wordbuf[:])) <= 512:SegmentID", "streamHeaderSize(SegmentID(Uint32(*LittleEndian, p0.wordbuf[:]))) <= §"},
 		"header buffer is sized only after the segment-count cap and the header <= MaxMessageSize test"},
 	{"capnp.(*Decoder).Decode", "io.ReadFull", 3, []string{"p0.r", "make([]byte, int(totalSize(hdr)#0), int(totalSize(hdr)#0))"},
-		[]string{"nil == totalSize(hdr)#1", "totalSize(hdr)#0 <= (phi - uint64(len(hdr.b)))", "SegmentID(Uint32(*LittleEndian, p0.wordbuf[:])) <= 512:SegmentID"},
+		[]string{"nil == totalSize(hdr)#1", "totalSize(hdr)#0 <= (§ - uint64(len(hdr.b)))", "SegmentID(Uint32(*LittleEndian, p0.wordbuf[:])) <= 512:SegmentID"},
 		"message buffer is allocated only under total <= MaxMessageSize - header"},
 	{"capnp.(*Decoder).Decode", "capnp.resizeSlice", 2, []string{"p0.buf", "int(totalSize(hdr)#0)"},
-		[]string{"nil == totalSize(hdr)#1", "totalSize(hdr)#0 <= (phi - uint64(len(hdr.b)))"},
+		[]string{"nil == totalSize(hdr)#1", "totalSize(hdr)#0 <= (§ - uint64(len(hdr.b)))"},
 		"reused buffer is grown only under total <= MaxMessageSize - header"},
 	{"capnp.(*Decoder).Decode", "capnp.(streamHeader).totalSize", 1, []string{"hdr"},
 		[]string{"SegmentID(Uint32(*LittleEndian, p0.wordbuf[:])) <= 512:SegmentID"},
@@ -50,6 +51,8 @@ var decodeSpecs = []anchorSpec{
 }
 
 func runC14(ctx *Ctx) {
+	ruleResetComplete(ctx, "C14-R5", "capnp", "Message", "Reset", []string{"CapTable", "Arena"})
+	ctx.Rep.Floor("C14-R5", 3)
 	if ctx.Primary {
 		ruleAnchorSpecs(ctx, "C14-R1", decodeSpecs)
 		ruleKernelLemmas(ctx, "C14-R2", []string{"capnp.streamHeaderSize", "capnp.(streamHeader).segmentSize", "capnp.(streamHeader).maxSegment", "capnp.resizeSlice"})
@@ -80,8 +83,8 @@ func ruleDecodeLimits(ctx *Ctx, rule string) {
 	wants := []want{
 		{"MaxMessageSize below the header size is rejected", "p0.MaxMessageSize < 8:uint64", "a limit smaller than one word would make the later subtraction wrap"},
 		{"segment count above maxStreamSegments is rejected", "512:SegmentID < SegmentID(Uint32(*LittleEndian, p0.wordbuf[:]))", "a hostile count would size a huge header buffer"},
-		{"header larger than the limit is rejected", "phi < streamHeaderSize(SegmentID(Uint32(*LittleEndian, p0.wordbuf[:])))", "header allocation above MaxMessageSize"},
-		{"total larger than limit minus header is rejected", "(phi - uint64(len(hdr.b))) < totalSize(hdr)#0", "message allocation above MaxMessageSize"},
+		{"header larger than the limit is rejected", "§ < streamHeaderSize(SegmentID(Uint32(*LittleEndian, p0.wordbuf[:])))", "header allocation above MaxMessageSize"},
+		{"total larger than limit minus header is rejected", "(§ - uint64(len(hdr.b))) < totalSize(hdr)#0", "message allocation above MaxMessageSize"},
 	}
 	found := map[string]bool{}
 	for _, b := range f.Blocks {
@@ -105,8 +108,10 @@ func ruleDecodeLimits(ctx *Ctx, rule string) {
 				}
 			}
 			for _, w := range wants {
-				if all[w.atom] {
-					found[w.key] = true
+				for a := range all {
+					if matchPattern(a, w.atom) {
+						found[w.key] = true
+					}
 				}
 			}
 		}
@@ -251,7 +256,7 @@ func ruleCappedSlices(ctx *Ctx, rule string) {
 						case *ssa.IndexAddr:
 							isArena = true
 						case *ssa.FieldAddr:
-							if fld := ssaq.FieldVar(ad); fld != nil && fld.Name() == "arena" {
+							if fld := ssaq.FieldVar(ad); fld != nil && core.FieldName(fld) == "arena" {
 								isArena = true
 							}
 						}
@@ -260,7 +265,7 @@ func ruleCappedSlices(ctx *Ctx, rule string) {
 						for _, r2 := range *ct.Referrers() {
 							if st, ok := r2.(*ssa.Store); ok {
 								if ad, ok := st.Addr.(*ssa.FieldAddr); ok {
-									if fld := ssaq.FieldVar(ad); fld != nil && fld.Name() == "arena" {
+									if fld := ssaq.FieldVar(ad); fld != nil && core.FieldName(fld) == "arena" {
 										isArena = true
 									}
 								}
